@@ -1,96 +1,71 @@
-/- Lemmas/RoundRobin.lean — RoundRobin call sequences (position + count model; no bound on the number of calls). -/
+/- Lemmas/RoundRobin.lean — RoundRobin call sequences (64-bit call counter). -/
 import KafkaVerif.Lemmas.BalancerRange
 namespace KV.Balancer
 open KV
 
-/-- successor modulo `L`, the way the code does it: step, then reset when the end of the list is reached -/
-theorem succ_mod_wrap (q L : Nat) (hL : 0 < L) :
-    (q + 1) % L = if q % L + 1 ≥ L then 0 else q % L + 1 := by
-  have hlt : q % L < L := Nat.mod_lt _ hL
-  rw [Nat.add_mod]
-  by_cases h1 : L = 1
-  · subst h1; simp [Nat.mod_one]
-  · have h1' : 1 % L = 1 := Nat.mod_eq_of_lt (by omega)
-    rw [h1']
-    split
-    · have : q % L + 1 = L := by omega
-      rw [this, Nat.mod_self]
-    · exact Nat.mod_eq_of_lt (by omega)
-
-theorem div_of_decomp (q c r : Nat) (hr : r < c) : (q * c + r) / c = q := by
-  have hc : 0 < c := by omega
-  rw [Nat.add_comm, Nat.mul_comm, Nat.add_mul_div_left _ _ hc, Nat.div_eq_of_lt hr, Nat.zero_add]
-
-/-- the state after `k` calls with chunk `c` on an `L`-element list: `k = q·c + r`, `r ≤ c`, at position `q mod L`
-with `r` messages of the chunk routed (both `(q, c)` and `(q+1, 0)` describe a complete chunk) -/
-def RRAt (ch : Int) (L k : Nat) (rr : RoundRobin) : Prop :=
-  rr.chunkSize = ch ∧ ∃ q r, k = q * ch.toNat + r ∧ r ≤ ch.toNat ∧ rr.index = q % L ∧ rr.count = Int.ofNat r
-
-theorem rr_step (parts : List Int) (hp : parts ≠ []) (ch : Int) (h1 : 1 ≤ ch) (k : Nat) (rr : RoundRobin)
-    (hi : RRAt ch parts.length k rr) :
-    (rr.balance parts).2 = parts[(k / ch.toNat) % parts.length]? ∧ RRAt ch parts.length (k + 1) (rr.balance parts).1 := by
-  obtain ⟨hc, q, r, hk, hr, hidx, hcnt⟩ := hi
-  have hL : 0 < parts.length := List.length_pos_iff.mpr hp
-  have hcpos : 0 < ch.toNat := by omega
-  have hch : (ch.toNat : Int) = ch := Int.toNat_of_nonneg (by omega)
-  have hn1 : ¬ rr.chunkSize < 1 := by omega
+theorem rr_single (rr : RoundRobin) (parts : List Int) (h1 : 1 ≤ rr.chunkSize) (hp : parts ≠ []) :
+    rr.balance parts = ({ rr with counter := (rr.counter + 1) % two64 },
+      parts[(rr.counter / rr.chunkSize.toNat) % parts.length]?) := by
+  have hpos : 0 < parts.length := List.length_pos_iff.mpr hp
   unfold RoundRobin.balance
-  simp only [hn1, if_false]
-  by_cases hfull : r = ch.toNat
-  · -- the chunk is complete: move on
-    have hge : rr.count ≥ rr.chunkSize := by rw [hcnt, hc]; simp only [Int.ofNat_eq_natCast]; omega
-    simp only [hge, if_true]
-    have hkq : k = (q + 1) * ch.toNat := by rw [hk, hfull, Nat.add_mul]; omega
-    have hdiv : k / ch.toNat = q + 1 := by rw [hkq, Nat.mul_div_cancel _ hcpos]
-    have hw := succ_mod_wrap q parts.length hL
-    by_cases hwrap : rr.index + 1 ≥ parts.length
-    · simp only [hwrap, if_true]
-      have : (q + 1) % parts.length = 0 := by rw [hw, ← hidx]; simp [hwrap]
-      refine ⟨by rw [hdiv, this], hc, q + 1, 1, by rw [hkq], by omega, by simp [this], by simp⟩
-    · simp only [hwrap, if_false]
-      have : (q + 1) % parts.length = rr.index + 1 := by rw [hw, ← hidx]; simp [hwrap]
-      refine ⟨by rw [hdiv, this], hc, q + 1, 1, by rw [hkq], by omega, by simp [this], by simp⟩
-  · have hlt : r < ch.toNat := by omega
-    have hnge : ¬ rr.count ≥ rr.chunkSize := by rw [hcnt, hc]; simp only [Int.ofNat_eq_natCast]; omega
-    simp only [hnge, if_false]
-    have hdiv : k / ch.toNat = q := by rw [hk]; exact div_of_decomp q _ r hlt
-    have hin : ¬ rr.index ≥ parts.length := by rw [hidx]; exact Nat.not_le.mpr (Nat.mod_lt _ hL)
-    simp only [hin, if_false]
-    refine ⟨by rw [hdiv, hidx], hc, q, r + 1, by rw [hk]; omega, by omega, hidx, ?_⟩
-    rw [hcnt]; simp only [Int.ofNat_eq_natCast]; omega
+  have hc : ¬ rr.chunkSize < 1 := by omega
+  have hl : ¬ parts.length = 0 := by omega
+  simp only [hc, if_false, hl]
+
+/-- the j-th of a sequence of calls, each with its own non-empty list, answers from the global call number:
+`lists[j][((k + j) / ChunkSize) % |lists[j]|]` — as long as the counter does not reach 2⁶⁴ -/
+theorem rr_runVar (ch : Int) (h1 : 1 ≤ ch) :
+    ∀ (lists : List (List Int)) (k : Nat) (rr : RoundRobin), rr.chunkSize = ch → (lists ≠ [] → rr.counter = k) →
+      (∀ l ∈ lists, l ≠ []) → k + lists.length ≤ two64 →
+      ∀ (j : Nat) (hj : j < lists.length),
+        (rr.runVar lists)[j]? = some (lists[j][((k + j) / ch.toNat) % lists[j].length]?) := by
+  intro lists
+  induction lists with
+  | nil => intro k rr _ _ _ _ j hj; simp at hj
+  | cons l rest ih =>
+    intro k rr hc hk0 hne hle j hj
+    have hk := hk0 (by simp)
+    have hl : l ≠ [] := hne l (List.mem_cons_self ..)
+    simp only [RoundRobin.runVar]
+    rw [rr_single rr l (by omega) hl]
+    simp only [List.length_cons] at hle hj
+    cases j with
+    | zero => simp [hc, hk]
+    | succ i =>
+      have hk' : rest ≠ [] → (rr.counter + 1) % two64 = k + 1 := by
+        intro hr
+        have : 0 < rest.length := List.length_pos_iff.mpr hr
+        rw [hk]; exact Nat.mod_eq_of_lt (by omega)
+      have := ih (k + 1) { rr with counter := (rr.counter + 1) % two64 } hc hk'
+        (fun l' h => hne l' (List.mem_cons_of_mem _ h)) (by omega) i (by omega)
+      simp only [List.getElem?_cons_succ, List.getElem_cons_succ]
+      rw [this]
+      have e : k + 1 + i = k + (i + 1) := by omega
+      rw [e]
 
 theorem rr_run (parts : List Int) (hp : parts ≠ []) (ch : Int) (h1 : 1 ≤ ch) :
-    ∀ (n k : Nat) (rr : RoundRobin), RRAt ch parts.length k rr →
+    ∀ (n k : Nat) (rr : RoundRobin), rr.chunkSize = ch → (0 < n → rr.counter = k) → k + n ≤ two64 →
       (RoundRobin.run rr parts n).2 =
         (List.range n).map (fun j => parts[((k + j) / ch.toNat) % parts.length]?) := by
   intro n
   induction n with
-  | zero => intro k rr _; simp [RoundRobin.run]
+  | zero => intro k rr _ _ _; simp [RoundRobin.run]
   | succ n ih =>
-    intro k rr hi
-    obtain ⟨hres, hnext⟩ := rr_step parts hp ch h1 k rr hi
+    intro k rr hc hk0 hle
+    have hk := hk0 (by omega)
     unfold RoundRobin.run
+    rw [rr_single rr parts (by omega) hp]
     simp only
-    rw [ih (k + 1) (rr.balance parts).1 hnext, hres]
+    have hk' : 0 < n → (rr.counter + 1) % two64 = k + 1 := by
+      intro hn; rw [hk]; exact Nat.mod_eq_of_lt (by omega)
+    rw [ih (k + 1) { rr with counter := (rr.counter + 1) % two64 } hc hk' (by omega)]
     rw [List.range_succ_eq_map]
-    simp only [List.map_cons, List.map_map, Nat.add_zero]
+    simp only [List.map_cons, List.map_map, hc, hk, Nat.add_zero]
     congr 1
     apply List.map_congr_left
     intro j _
     simp only [Function.comp]
     have : k + 1 + j = k + (j + 1) := by omega
     rw [this]
-
-theorem rrAt_fresh (ch : Int) (L : Nat) : RRAt ch L 0 (RoundRobin.fresh ch) :=
-  ⟨rfl, 0, 0, by simp, by omega, by simp [RoundRobin.fresh], by simp [RoundRobin.fresh]⟩
-
-theorem rrAt_placed (ch : Int) (h1 : 1 ≤ ch) (calls L : Nat) : RRAt ch L calls (RoundRobin.placed ch calls L) := by
-  have hn : ¬ ch < 1 := by omega
-  have hcpos : 0 < ch.toNat := by omega
-  refine ⟨rfl, calls / ch.toNat, calls % ch.toNat, ?_, ?_, ?_, ?_⟩
-  · rw [Nat.mul_comm]; exact (Nat.div_add_mod calls ch.toNat).symm
-  · exact Nat.le_of_lt (Nat.mod_lt _ hcpos)
-  · simp [RoundRobin.placed, hn]
-  · simp [RoundRobin.placed, hn]
 
 end KV.Balancer
